@@ -30,7 +30,7 @@ def leg_m(wd, tier):
 
 def leg_r(wd, tier, binary, verdict, stub="", max_paths=None):
     # quick: a seeded sample, but always every attach / detach BATCH (entries next to no-op entries in every position)
-    batch = lambda p: any(e["act"]["op"] in ("BeginAttach", "BeginDetach") and len(e["act"].get("b", [])) > 1 for e in p)
+    batch = lambda p: any((e["act"]["op"] in ("BeginAttach", "BeginDetach") and len(e["act"].get("b", [])) > 1) or e["act"]["op"] == "PartialWrite" for e in p)
     g, paths = H.export_paths(wd, "Host_accounts_edges.cfg", max_paths=max_paths or (3000 if tier == "quick" else None),
                               prefer=None if max_paths else batch)
     rr = H.run_replay(wd, binary, "accounts", paths, ALLOW, COLL, verdict, listable="none", stub=stub, shards=8)
